@@ -1,101 +1,133 @@
-"""Property -> rules table (DESIGN 3) with the evidence texts."""
+"""Property -> rules table (DESIGN.md section 3) with the texts that go to MANIFEST.json and the evidence files."""
+
+_NOTE = ('Trusted base: CPython ast, the analyser in /verif/sa (CFG builder with exception edges, path-sensitive must-fact '
+         'exploration, difference-constraint/congruence oracle, call resolution, role binding through public API names). '
+         'Control flow is over-approximated; calls through user-supplied values are assumed not to write SyncObj state. '
+         'Each rule is a necessary condition: breaking it yields a concrete schedule/input that breaks the property; '
+         'satisfying all rules does not prove the behaviour as a whole.')
+
+
+def _p(rules, decided, not_decided, technique, thorough_rules=()):
+    return {
+        'rules': list(rules),
+        'thorough_rules': list(thorough_rules),
+        'explanation': 'Static rule discharge on the parsed source of /repo/pysyncobj (nothing is imported or executed). Decided: ' + decided,
+        'not_decided': list(not_decided),
+        'level_text': 'Decides, for every path of the code, these structural necessary conditions of the property: ' + decided +
+                      ' NOT decided (stays with other techniques): ' + '; '.join(not_decided) + '.',
+        'level_note': _NOTE,
+        'technique': 'static analysis: ' + technique,
+    }
+
 
 PROPS = {
-    'C14': {
-        'rules': ['R-attribution', 'R-drop-teardown', 'R-dial-order', 'R-send-connected'],
-        'explanation': 'x', 'level_text': 'x', 'level_note': 'x', 'technique': 'x',
-    },
-    'C17': {
-        'rules': ['R-id-order', 'R-name-format', 'R-setversion-guards', 'R-version-select', 'R-version-apply', 'R-apply-step', 'R-version-pairing', 'R-version-in-payload'],
-        'explanation': 'x', 'level_text': 'x', 'level_note': 'x', 'technique': 'x',
-    },
-    'C19': {
-        'rules': ['R-caller-footprint', 'R-queue-locked', 'R-result-publish', 'R-atomic-publish'],
-        'explanation': 'x', 'level_text': 'x', 'level_note': 'x', 'technique': 'x',
-    },
-    'C15': {
-        'rules': ['R-delegate-agree', 'R-counter-ops', 'R-queue-bound', 'R-consumer-state'],
-        'explanation': 'x', 'level_text': 'x', 'level_note': 'x', 'technique': 'x',
-    },
-    'C16': {
-        'rules': ['R-lock-guards', 'R-expiry-partition', 'R-late-acquire'],
-        'explanation': 'x', 'level_text': 'x', 'level_note': 'x', 'technique': 'x',
-    },
-    'C11': {
-        'rules': ['R-chunk-length', 'R-chunk-kinds', 'R-cmd-shapes', 'R-wire-schema', 'R-bounded-write'],
-        'explanation': 'x', 'level_text': 'x', 'level_note': 'x', 'technique': 'x',
-    },
-    'C13': {
-        'rules': ['R-header-agree', 'R-codec-inverse', 'R-length-range', 'R-decode-contained', 'R-consume-once', 'R-parser-state', 'R-write-fifo'],
-        'explanation': 'x', 'level_text': 'x', 'level_note': 'x', 'technique': 'x',
-    },
-    'C09': {
-        'rules': ['R-payload-complete', 'R-version-in-payload', 'R-no-field-leak', 'R-snapshot-point', 'R-dump-atomic', 'R-version-pairing', 'R-transfer-restart'],
-        'explanation': 'x', 'level_text': 'x', 'level_note': 'x', 'technique': 'x',
-    },
-    'C06': {
-        'rules': ['R-durable-before-ack', 'R-ack-after-store', 'R-dump-before-trim', 'R-restart-keeps-journal', 'R-log-owners', 'R-head-drop-atomic', 'R-write-then-publish'],
-        'explanation': 'x', 'level_text': 'x', 'level_note': 'x', 'technique': 'x',
-    },
-    'C07': {
-        'rules': ['R-vote-durable'],
-        'explanation': 'x', 'level_text': 'x', 'level_note': 'x', 'technique': 'x',
-    },
-    'C08': {
-        'rules': ['R-write-then-publish', 'R-record-layout', 'R-bounded-write', 'R-meta-atomic', 'R-head-drop-atomic', 'R-tail-drop-monotone', 'R-journal-siblings'],
-        'explanation': 'x', 'level_text': 'x', 'level_note': 'x', 'technique': 'x',
-    },
-    'C05': {
-        'rules': ['R-timer-reset', 'R-sender-total', 'R-reply-exhaustive', 'R-disposition'],
-        'explanation': 'x', 'level_text': 'x', 'level_note': 'x', 'technique': 'x',
-    },
-    'C18': {
-        'rules': ['R-majority', 'R-no-vote-without-address', 'R-observer-bookkeeping', 'R-selfnode-deref'],
-        'explanation': 'x', 'level_text': 'x', 'level_note': 'x', 'technique': 'x',
-    },
-    'C20': {
-        'rules': ['R-fallback-every-tick', 'R-response-time-writes', 'R-hasquorum', 'R-majority'],
-        'explanation': 'x', 'level_text': 'x', 'level_note': 'x', 'technique': 'x',
-    },
-    'C10': {
-        'rules': ['R-gate-live', 'R-rollback-paired', 'R-apply-on-append', 'R-removed-excluded'],
-        'explanation': 'x', 'level_text': 'x', 'level_note': 'x', 'technique': 'x',
-    },
-    'C02': {
-        'rules': ['R-cb-linear', 'R-success-guard', 'R-disposition', 'R-commit-subscription', 'R-request-id-unique', 'R-commit-gate'],
-        'explanation': 'x', 'level_text': 'x', 'level_note': 'x', 'technique': 'x',
-    },
-    'C12': {
-        'rules': ['R-user-exc-contained', 'R-apply-step'],
-        'explanation': 'x', 'level_text': 'x', 'level_note': 'x', 'technique': 'x',
-    },
-    'C01': {
-        'rules': ['R-apply-step', 'R-append-gate', 'R-commit-gate', 'R-truncate-on-conflict', 'R-log-owners', 'R-payload-complete'],
-        'explanation': 'x', 'level_text': 'x', 'level_note': 'x', 'technique': 'x',
-    },
-    'C04': {
-        'rules': ['R-commit-rule', 'R-match-writes', 'R-ack-after-store', 'R-truncate-on-conflict', 'R-commit-gate', 'R-majority'],
-        'explanation': 'x', 'level_text': 'x', 'level_note': 'x', 'technique': 'x',
-    },
-    'C03': {
-        'rules': ['R-vote-grant', 'R-term-vote-writes', 'R-majority', 'R-leader-entry', 'R-step-down'],
-        'explanation': 'Static discharge of the local Raft election obligations on the parsed source: vote-grant guard '
-                       'entailment by path-sensitive must-facts, write discipline of term/vote, strict-majority arithmetic '
-                       'by small-domain evaluation, who may enter the LEADER state, step-down on newer terms.',
-        'not_decided': ['the global counting argument (one leader per term follows from these local rules plus FIFO links)',
-                        'vote duplication across restarts (C07)'],
-        'level_text': 'Necessary local conditions of election safety are decided for every path of the handler and the tick '
-                      '(guards entailed at the vote grant, term/vote write discipline, strict majority arithmetic, single '
-                      'entry into LEADER). The global one-leader-per-term argument over all schedules is NOT decided.',
-        'level_note': 'Trusts the analyser (CFG, fact engine, oracle) and the role binding; over-approximates control flow; '
-                      'a broken local rule yields a concrete schedule that breaks the property, the converse does not hold.',
-        'technique': 'static analysis: path-sensitive must-fact guard entailment on the CFG + small-domain evaluation of majority arithmetic',
-    },
+    'C01': _p(['R-apply-step', 'R-append-gate', 'R-commit-gate', 'R-truncate-on-conflict', 'R-log-owners', 'R-payload-complete'],
+              'apply-loop step discipline (exactly one advance per dispatched entry, batch bounded by the commit index); received entries stored '
+              'only behind the log-matching gate; follower commit index raised only on a verified path and never past what the message verified; '
+              'truncation only on a stored-vs-received conflict; who may truncate/clear/trim the log; snapshot payload positions agree between writer and loader.',
+              ['agreement of two nodes under all schedules (global argument over interleavings, nextIndex/matchIndex dynamics, snapshot timing)'],
+              'CFG reachability with obligation nodes removed (must-pass-through), path-sensitive must-facts, who-may-call'),
+    'C02': _p(['R-cb-linear', 'R-success-guard', 'R-disposition', 'R-commit-subscription', 'R-request-id-unique', 'R-commit-gate'],
+              'callback linearity (a callback taken from the queue or a waiting table is consumed exactly once on every path); SUCCESS only under '
+              'stored-term == applied-term with the dispatch result of that entry; exactly one disposition (append / forward / error) per dequeued command; '
+              'a callback waits at exactly the (index, term) its command was appended with; request ids never reused.',
+              ['that a SUCCESS-reported command is never undone later (global, see C04)', 'timeouts'],
+              'linear typestate by event counting over path-sensitive CFG exploration, guard entailment, def-use'),
+    'C03': _p(['R-vote-grant', 'R-term-vote-writes', 'R-majority', 'R-leader-entry', 'R-step-down'],
+              'the five Raft vote-grant conditions are entailed at the grant; term only grows and the vote is reset only with a term change; every majority '
+              'test is a strict majority of voters+self over the voter set; LEADER is entered only behind a majority test as CANDIDATE of the current term; '
+              'newer terms / accepted append_entries lead to FOLLOWER.',
+              ['the global counting argument (one leader per term follows from these local rules plus FIFO links)', 'vote duplication across restarts (C07)'],
+              'path-sensitive must-fact guard entailment, small-domain evaluation of extracted majority arithmetic'),
+    'C04': _p(['R-commit-rule', 'R-match-writes', 'R-ack-after-store', 'R-truncate-on-conflict', 'R-commit-gate', 'R-majority'],
+              'leader commits only an index stored on a strict majority of voters whose entry has the current term; matchIndex only raised for a successful reply, '
+              'upwards, to the acknowledged index; positive acknowledgement only after gate + store (or completed install) with a recognised index; truncation only on '
+              'conflict; follower commit only on verified paths, monotone and bounded by the leader commit.',
+              ['Log Matching as a global invariant', 'monotonicity of lastApplied across snapshot installs'],
+              'must-facts with alias/congruence closure, CFG dominance, small-domain arithmetic'),
+    'C05': _p(['R-timer-reset', 'R-sender-total', 'R-reply-exhaustive', 'R-disposition'],
+              'progress obligations only: election deadline re-armed by accepted append_entries / grant / candidacy and candidacy guarded by the deadline; every '
+              'iteration of the per-follower send loop sends; next index moved past a finished snapshot; every (reset, success) reply combination is acted on and refreshes '
+              'the response time; no dequeued command is dropped silently.',
+              ['convergence itself: leader election within bounded timeouts, catch-up, equality of replicas (liveness in virtual time)'],
+              'CFG reachability (wedge detection), reply-combination table agreement'),
+    'C06': _p(['R-durable-before-ack', 'R-ack-after-store', 'R-dump-before-trim', 'R-restart-keeps-journal', 'R-log-owners', 'R-head-drop-atomic', 'R-write-then-publish'],
+              'positive ack only after the journal add that reaches the file write and publish; serializer SUCCESS (which triggers the trim) only after the atomic rename / clean '
+              'child exit; at start-up the journal is replaced only when it does not contain the dump position and a kept journal is trimmed exactly to it; head drop atomicity.',
+              ['equality of the rebuilt object with a replay of the committed prefix', 'kill points inside mmap stores'],
+              'ordering rules on CFGs (dominance / must-pass-through), call-graph reachability to the durability point, guard-shape recogniser'),
+    'C07': _p(['R-vote-durable'],
+              'whether currentTerm and votedFor ever reach durable storage before a vote leaves the node and are reloaded at start (decided negatively on this tree: known finding).',
+              ['nothing further: the mechanism the property needs is structurally absent'],
+              'def-use / effect analysis from vote events to durable sinks'),
+    'C08': _p(['R-write-then-publish', 'R-record-layout', 'R-bounded-write', 'R-meta-atomic', 'R-head-drop-atomic', 'R-tail-drop-monotone', 'R-journal-siblings'],
+              'record write precedes publish and the published offset is the running end; reader / writer / tail-drop byte layout constants agree with the struct formats; '
+              'mmap store only when offset+size <= capacity is established; .meta only replaced via tmp+move; tail drop walks backwards, counts before cutting the mirror, '
+              'stores and publishes the final offset; sibling journals implement the same interface and every mutator updates mirror and file.',
+              ['equality with an in-memory list for all operation sequences (byte-level round trip)', 'head drop kill-safety (known finding)'],
+              'ordering on CFGs, must-facts for the bounded write, table agreement against struct.calcsize, sibling cross-check'),
+    'C09': _p(['R-payload-complete', 'R-version-in-payload', 'R-no-field-leak', 'R-snapshot-point', 'R-dump-atomic', 'R-version-pairing', 'R-transfer-restart'],
+              'payload components and the positions the loader reads them from; enabled version inside the payload in every serializer mode; no internal attribute leaks into the payload; '
+              'no apply between fixing the position and serializing; dump only ever renamed into place; name table rebuilt for the enabled version; interrupted transfers restart.',
+              ['pickle round-trip equality of user state', 'chunk reassembly under every interruption pattern'],
+              'writer/reader table agreement, attribute def-order analysis, CFG reachability, call-graph reachability'),
+    'C10': _p(['R-gate-live', 'R-rollback-paired', 'R-apply-on-append', 'R-removed-excluded'],
+              'the leader-side gate is live (pending marker set to the index of every appended membership entry, cleared only once applied, both gates dominate the mutation); '
+              'truncation preceded by the reverse rollback of the same slice; snapshot adoption restores the member set; refused changes are not appended and stored ones are '
+              'applied on followers; add/remove perform all their bookkeeping effects.',
+              ['quorum-overlap safety under interleavings (follows from the gate + C03/C04 by a paper argument)', 'operator discipline clauses'],
+              'dead-guard / def-use analysis, path-sensitive reachability with obligation nodes removed, effect multiset per path'),
+    'C11': _p(['R-chunk-length', 'R-chunk-kinds', 'R-cmd-shapes', 'R-wire-schema', 'R-bounded-write'],
+              'the chunk classifier uses the length of the sliced sequence and yields start, process*, finish for every size; sender kinds = receiver kinds with the right buffer effect '
+              'per kind; command pack/unpack shapes agree and reserved keywords are removed before pickling; every key the handler reads is written by every consistent sender; journal write bounded.',
+              ['equality of pickled arguments after transport (round trip)', 'exact batch arithmetic of __getEntries'],
+              'small-domain evaluation of the extracted classifier, path-sensitive effect sequences, wire-schema agreement under must-facts'),
+    'C12': _p(['R-user-exc-contained', 'R-apply-step'],
+              'whether an exception of user code can leave the apply step (known finding on this tree), and that no handler continues with the next entry without advancing.',
+              ['equality of replicas afterwards (determinism of user code)'],
+              'exception-edge reachability on the CFG of the apply step and dispatcher'),
+    'C13': _p(['R-header-agree', 'R-codec-inverse', 'R-length-range', 'R-decode-contained', 'R-consume-once', 'R-parser-state', 'R-write-fifo'],
+              'header format and literal sizes agree; receive pipeline is the reversed inverse of the send pipeline; received length bounded below and by the buffered bytes before use; '
+              'decode errors contained => disconnect without consuming; buffer advanced exactly once per delivered frame by header+length; parser keeps no state but the buffer; '
+              'write buffer is appended whole frames and trimmed by the sent prefix.',
+              ['behaviour of the kernel socket layer', '"for all fragmentations" as such (follows from R-parser-state: delivery is a function of the byte stream)'],
+              'must-facts on slice bounds, exception-edge containment, event counting per path, table agreement with struct.calcsize'),
+    'C14': _p(['R-attribution', 'R-drop-teardown', 'R-dial-order', 'R-send-connected'],
+              'attribution only: delivery callback bound only after the peer named a known member or "readonly", bound node taken from the member table; dropNode tears down registry, '
+              'member set, address table and connection; exactly one endpoint dials and only without a live connection; send only to a registered CONNECTED connection.',
+              ['reconnection within bounded time', 'half-open connection handling', 'accuracy of connect/disconnect notifications under fault sequences'],
+              'must-fact guard entailment, effect multiset per path'),
+    'C15': _p(['R-delegate-agree', 'R-counter-ops', 'R-queue-bound', 'R-consumer-state'],
+              'every delegating battery method agrees with the builtin it forwards to (operation, parameter order, defaults, returned value; documented deviations tabled); counter arithmetic; '
+              'bounded queues insert only below the bound, report acceptance truthfully, remove in queue order; battery state is created where it gets serialised.',
+              ['behavioural equivalence over operation sequences for the non-delegating methods', 'equality of replicas'],
+              'signature-table agreement (cross-checked with inspect.signature of builtins), guard entailment'),
+    'C16': _p(['R-lock-guards', 'R-expiry-partition', 'R-late-acquire'],
+              'lock table transitions happen only under their guards; holder view and taker views of expiry are disjoint over (d<U, d=U, d>U); both acquisition paths apply the same '
+              'late-acquire test, report failure and release; prolongation period at most half the auto-unlock time.',
+              ['exclusion under commit delay with unsynchronised clocks', 'eventual obtainability under partitions'],
+              'guard entailment, comparator partition over a three-point domain, sibling agreement'),
+    'C17': _p(['R-id-order', 'R-name-format', 'R-setversion-guards', 'R-version-select', 'R-version-apply', 'R-apply-step', 'R-version-pairing', 'R-version-in-payload'],
+              'ids assigned in sorted (version, consumer ordinal, name) order, consecutively, tables written only by the constructor; registration and lookup names share one format; '
+              'setCodeVersion guards; resolver picks the newest version <= requested; VERSION apply refuses unsupported versions before switching and stops the batch; name table paired with the '
+              'enabled version; enabled version carried by snapshots.',
+              ['compatibility of old and new user code'],
+              'def-use on sort keys, expression-shape agreement, guard entailment'),
+    'C18': _p(['R-majority', 'R-no-vote-without-address', 'R-observer-bookkeeping', 'R-selfnode-deref'],
+              'all majorities measure and count the voter set only; no candidacy or vote without an own address, vote requests to voters only, observers only receive append_entries; '
+              'observer connect/disconnect touch only observer bookkeeping; no unguarded dereference of the (possibly absent) own node in tick-reachable code.',
+              ['convergence of observers (C05-like)'],
+              'small-domain evaluation, effect summaries (footprints), None-dereference contradiction rule with must-facts'),
+    'C19': _p(['R-caller-footprint', 'R-queue-locked', 'R-result-publish', 'R-atomic-publish'],
+              'caller-thread code writes only the locked queue / wake-up pipe; every deque and tick-callback access is under its lock; result stored before the event is set, read only after the wait, '
+              'per-call result object, timed-out or failed waits raise; caller-read tables are published by one assignment of a fully built value.',
+              ['exactly-once application under all thread interleavings (C02 global part)'],
+              'ownership/effect analysis with two thread roots, lock-scope check, CFG dominance'),
+    'C20': _p(['R-fallback-every-tick', 'R-response-time-writes', 'R-hasquorum', 'R-majority'],
+              'a leader reaches the fallback test on every tick; responders counted iff they answered within leaderFallbackTimeout over the voter set; failing arm => FOLLOWER and no leader; '
+              'response times refreshed only by replies received as leader; hasQuorum equals strict majority of connected voters (+self) for n=0..8.',
+              ['the time bound itself', '"no SUCCESS while cut off"'],
+              'CFG reachability, small-domain evaluation by a mini interpreter over the extracted property body'),
 }
 
 NOT_APPLICABLE = {}
-for _i in range(1, 21):
-    _p = 'C%02d' % _i
-    if _p not in PROPS:
-        NOT_APPLICABLE[_p] = 'static rules for this property are specified in DESIGN.md section 3 but not yet implemented in this snapshot'
-
